@@ -273,6 +273,105 @@ func driveFit(t *Tracer, r Rng, k int) {
 	}
 }
 
+// evCorridorAxis: the corridor around a long axis-parallel segment (thousands of line voxels), radius 0
+// or a fraction of a voxel; recorded relative to the start voxel.
+func evCorridorAxis(t *Tracer, axis int, lon0, lat0, alt0, lon1, lat1, alt1, radius float64, H, V int64) {
+	wd := time.AfterFunc(300*time.Second, func() {
+		fmt.Fprintf(os.Stderr, "watchdog: long corridor call did not return\n")
+		os.Exit(3)
+	})
+	defer wd.Stop()
+	p0, err0 := object.NewPoint(lon0, lat0, alt0)
+	p1, err1 := object.NewPoint(lon1, lat1, alt1)
+	if err0 != nil || err1 != nil {
+		return
+	}
+	ends, err := shape.GetExtendedSpatialIdsOnPoints([]*object.Point{p0, p1}, H, V)
+	if err != nil || len(ends) != 2 {
+		return
+	}
+	sv, ok0 := ParseExt(ends[0])
+	ev, ok1 := ParseExt(ends[1])
+	if !ok0 || !ok1 {
+		return
+	}
+	d := relArr(ev, sv)
+	for i := 0; i < 3; i++ {
+		if i != axis-1 && d[i] != 0 {
+			return
+		}
+	}
+	// the largest layer counts the fit reports for the voxels of the run (every one of them: the fit is an
+	// iterative measurement and now and then reports a layer more for one voxel than for its neighbours)
+	var fitH, fitV int64
+	step := int64(1)
+	nn := abs64(d[axis-1])
+	sgn := int64(1)
+	if d[axis-1] < 0 {
+		sgn = -1
+	}
+	for i := int64(0); i <= nn; i += step {
+		id := sv
+		switch axis {
+		case 1:
+			id.X += sgn * i
+		case 2:
+			id.Y += sgn * i
+		default:
+			id.F += sgn * i
+		}
+		h, v, e := transform.FitClearanceAroundExtendedSpatialID(id.String(), radius)
+		if e != nil {
+			return
+		}
+		fitH, fitV = maxI(fitH, h), maxI(fitV, v)
+	}
+	e := absW.ev("CorridorAxis", map[string]any{"axis": axis, "n": d[axis-1], "fitH": fitH, "fitV": fitV, "zeroRadius": radius == 0,
+		"p0": hexTriple(lon0, lat0, alt0), "p1": hexTriple(lon1, lat1, alt1), "radius": fstr(radius), "H": H, "V": V})
+	e.Real = map[string]any{"start": ends[0], "radius_m": radius}
+	proj := func(ss []string) []any {
+		out := make([]any, 0, len(ss))
+		for _, s := range ss {
+			id, ok := ParseExt(s)
+			if !ok || id.H != H || id.V != V {
+				e.Bad = "malformed or wrong zoom: " + s
+				continue
+			}
+			out = append(out, relArr(id, sv))
+		}
+		return out
+	}
+	om, rm := guard(func() (any, error) {
+		return transform.GetExtendedSpatialIdsWithinRadiusOfLine(p0, p1, radius, H, V, false)
+	})
+	os_, rs := guard(func() (any, error) {
+		return transform.GetExtendedSpatialIdsWithinRadiusOfLine(p0, p1, radius, H, V, true)
+	})
+	e.O = om
+	if om != os_ {
+		e.Bad = "outcomes differ between the two flag values: " + om + "/" + os_
+	}
+	e.R = map[string]any{"rm": []any{}, "rs": []any{}}
+	if om == "ok" && os_ == "ok" {
+		e.R = map[string]any{"rm": proj(strs(rm)), "rs": proj(strs(rs))}
+	}
+	t.Emit(e, true)
+}
+
+func driveLongCorridors(t *Tracer, r Rng, k int) {
+	for i := 0; i < k; i++ {
+		n := r.Pick(1025, 2047, 2048, 2049, 2500, 4096, 4097, r.In(1000, 5000))
+		axis := 1 + r.Intn(3)
+		H, V := r.In(21, 26), r.In(21, 26)
+		lon0, lat0, alt0, lon1, lat1, alt1 := r.axisSegment(axis, n, H, V)
+		radius := 0.0
+		if r.Chance(0.4) {
+			radius = 2 * math.Pi * 6378137 * math.Cos(lat0*math.Pi/180) / math.Ldexp(1, int(H)) * (0.2 + 0.6*r.Float64())
+		}
+		evCorridorAxis(t, axis, lon0, lat0, alt0, lon1, lat1, alt1, radius, H, V)
+	}
+}
+
 // driveRoundRadii: the way the query is used in practice - one segment (often a vertical climb or a
 // level leg over whole-metre way points) asked with several whole-number clearances in a row,
 // including 0; every answer must stand on its own whatever was asked before.
@@ -313,6 +412,7 @@ func driveCorridor(t *Tracer, r Rng, n int) {
 	if n >= 20 {
 		driveFit(t, r, n/4)
 		driveRoundRadii(t, r, n/20)
+		driveLongCorridors(t, r, 2+n/500)
 	}
 	for i := 0; i < n; i++ {
 		if i%25 == 24 {
